@@ -40,7 +40,7 @@ func SetMeasurement(ctx *runtime.Task, funcExpr *ast.CallExpr) *errchain.PlError
 			"func `%s' expected 1 or 2 args", funcExpr.Name), funcExpr.NamePos)
 	}
 
-	val, dtype, err := runtime.RunStmt(ctx, funcExpr.Param[0])
+	val, dtype, err := runArg(ctx, funcExpr.Param[0])
 	if err != nil {
 		return nil
 	}
